@@ -7,7 +7,9 @@ proof phase   : Props/C16.v: widths = 2(r_K + t) and increasing, zero-thickness 
 correspondence: psd_mesoporous (isotherm entry) and psd_pygapsdh / psd_bjh / psd_dollimore_heal (raw entry) vs Charact/PsdMeso.v
                 executed inside Coq with the implementation's own thickness / Kelvin arrays as data: limits exactly, widths, areas,
                 volumes, distribution, cumulative curve numerically; the Kelvin / thickness formulas by interval goals.
-oracle/search : on the implementation: the five statements of the property, judged from the returned arrays.
+oracle/search : on the implementation: the five statements of the property, judged from the returned arrays; all calls of a run are made
+                in one process with isotherms naming ONE adsorbate whose property set differs from call to call (fresh objects and one
+                shared object edited between calls), so remembered adsorbate properties violate the Kelvin / width statements.
 """
 import math
 import random
